@@ -1,3 +1,4 @@
+#include <cstdlib>
 #include <cstring>
 
 #include <occa/types/bits.hpp>
@@ -168,7 +169,8 @@ namespace occa {
       // Handle the multiple other formats with normal digits
       if (decimal || float_) {
         if (float_) {
-          p = (float) occa::parseFloat(std::string(c0, c - c0));
+          // Round the decimal text to float once (not text -> double -> float)
+          p = ::strtof(std::string(c0, c - c0).c_str(), NULL);
         } else {
           p = (double) occa::parseDouble(std::string(c0, c - c0));
         }
